@@ -273,6 +273,11 @@ func genFTP(r *Rng) []unit {
 		if r.Intn(12) == 0 {
 			l = ""
 		}
+		if r.Intn(9) == 0 {
+			// a command line around and beyond the sizes of line buffers (4096) — one command, one event
+			n := []int{4000, 4090, 4091, 4092, 4093, 4094, 4095, 4096, 4097, 5000, 9000}[r.Intn(11)]
+			l = v + " " + strings.Repeat("p", n-len(v)-1)
+		}
 		e := eol(r, false)
 		us = append(us, unit{bytes: []byte(l + e), expect: []string{"ftp:" + hxs(strings.Trim(l, "\r\n"))}})
 	}
@@ -927,6 +932,19 @@ func genC04(tier string, seed uint64) {
 				runSeg(short, g.svc, cutAt(b[:k], []int{r.Intn(k + 1)}), nil, false)
 			}
 		}
+	}
+	// ftp: command lines around and beyond the size of a line buffer (one command, one event, whatever its length)
+	for _, n := range []int{4093, 4094, 4095, 4096, 4097, 9000} {
+		long := "CWD " + strings.Repeat("p", n-4)
+		us := []unit{
+			{bytes: []byte("USER anonymous\r\n"), expect: []string{"ftp:" + hxs("USER anonymous")}},
+			{bytes: []byte(long + "\r\n"), expect: []string{"ftp:" + hxs(long)}},
+			{bytes: []byte("NOOP\r\n"), expect: []string{"ftp:" + hxs("NOOP")}},
+		}
+		b, ex := dialogue(us)
+		runSeg("seg", "ftp", [][]byte{b}, ex, true)
+		runSeg("seg", "ftp", cutAt(b, []int{20, 4096 + 16}), ex, true)
+		runSeg("seg", "ftp", cutAt(b, []int{len(b) / 2}), ex, true)
 	}
 	// redis: arrays nested around the depth limit (the request is rejected beyond it, reported below it)
 	for _, k := range []int{1, 5, 30, 31, 32, 33, 34, 40} {
